@@ -240,5 +240,6 @@ def eval_case(case):
     m = case.get('tile', 1)
     ay = np.tile(np.array(ty, dtype=np.int32), m)
     ax = np.tile(np.array(tx, dtype=np.int32), m)
-    check_pair(f, ty, ay, tx, ax, st, refs.entropy(ty), refs.entropy(tx))
+    # a recorded case whose codes are already spread (multiples of 2^8 / 2^16) is judged as it stands: spreading it again would leave the 32-bit code range
+    check_pair(f, ty, ay, tx, ax, st, refs.entropy(ty), refs.entropy(tx), full=max(max(ty), max(tx)) < 256)
     return [v['what'] for v in st.violations]
